@@ -334,6 +334,13 @@ def expand_world(rng) -> World:
     l = w.add_lexicon('l', '1', lang='de', requires=req)
     fill_lexicon(w, l, rng, rng.randint(2, 4), rng.randint(1, 2), ilis)
     add_relations(w, l, rng, rng.randint(0, 3), 0, 0, types=['hypernym', 'also'])
+    if rng.random() < 0.45:
+        # another version of the expand lexicon and a lexicon that depends on it
+        e2 = w.add_lexicon('e', '2', lang='en')
+        fill_lexicon(w, e2, rng, rng.randint(2, 3), 0, ilis)
+        add_relations(w, e2, rng, rng.randint(1, 4), 0, 0, types=['hypernym', 'hyponym'])
+        m = w.add_lexicon('m', '1', lang='de', requires=rng.choice([['e:2'], ['e:2', 'e:1'], ['e:9']]))
+        fill_lexicon(w, m, rng, rng.randint(2, 3), 1, ilis)
     return w
 
 
